@@ -53,8 +53,10 @@ theorem setFifty_make (K : Keys) (b : Board) (m : Move) (c x : Int) :
 
 /-- the hash history after a move does not depend on the clock. -/
 theorem make_hashes_setFifty (K : Keys) (b : Board) (m : Move) (c : Int) :
-    (makeMove K (setFifty b c) m).1.hashes = (makeMove K b m).1.hashes :=
-  congrArg Board.hashes (setFifty_make K b m c 0)
+    (makeMove K (setFifty b c) m).1.hashes = (makeMove K b m).1.hashes := by
+  have h := congrArg Board.hashes (setFifty_make K b m c 0)
+  rw [setFifty_hashes, setFifty_hashes] at h
+  exact h
 
 theorem make_hashes_tail (K : Keys) (b : Board) (m : Move) : (makeMove K b m).1.hashes.tail = b.hashes := by
   have e := makeMove_eq K b m
@@ -69,8 +71,8 @@ theorem WF_setFifty {b : Board} (x : Int) : WF (setFifty b x) ↔ WF b := by
   rw [wf_iff, wf_iff, wf_setFifty]
 
 /-- C04's invariant does not read the clock. -/
-theorem inv_setFifty (K : Keys) {b : Board} (x : Int) : Inv K (setFifty b x) ↔ Inv K b := by
-  unfold Inv
+theorem inv_setFifty (K : Keys) {b : Board} (x : Int) : Board.Inv K (setFifty b x) ↔ Board.Inv K b := by
+  unfold Board.Inv
   rw [WF_setFifty, calcHash_setFifty]
   exact Iff.rfl
 
@@ -135,7 +137,7 @@ theorem legal_congr {p p' : Pos} (h : nc p = nc p') (mv : Mv) : legal p mv = leg
 theorem valid_nc {p : Pos} (h : Rules.valid p = true) : Rules.valid (nc p) = true := by
   have V := (Playable.validP_iff p).1 h
   exact (Playable.validP_iff (nc p)).2
-    ⟨V.kings, V.bound, V.pawns, V.real, V.safe, V.wk, V.wq, V.bk, V.bq, V.ep, Int.le_refl 0, by decide, V.fm1⟩
+    ⟨V.kings, V.bound, V.pawns, V.real, V.safe, V.wk, V.wq, V.bk, V.bq, V.ep, Int.le_refl 0, (by decide : (0 : Int) ≤ 100), V.fm1⟩
 
 /-! ### validity modulo the clock -/
 
@@ -143,21 +145,37 @@ theorem valid_nc {p : Pos} (h : Rules.valid p = true) : Rules.valid (nc p) = tru
     except the two that bound the clock. -/
 def ValidNC (b : Board) : Prop := Board.valid (setFifty b 0) = true
 
+theorem valid_iff (b : Board) : Board.valid b = true ↔ b.wf = true ∧ Rules.valid b.abs = true := by
+  unfold Board.valid; rw [Bool.and_eq_true]
+
+theorem setFifty_setFifty (b : Board) (x y : Int) : setFifty (setFifty b x) y = setFifty b y := rfl
+theorem abs_setFifty0 (b : Board) : (setFifty b 0).abs = nc b.abs := rfl
+
+theorem validNC_iff (b : Board) : ValidNC b ↔ b.wf = true ∧ Rules.valid (nc b.abs) = true := by
+  unfold ValidNC
+  rw [valid_iff, wf_setFifty, abs_setFifty0]
+
 theorem validNC_of_valid {b : Board} (h : Board.valid b = true) : ValidNC b := by
-  unfold ValidNC Board.valid at *
-  rw [Bool.and_eq_true] at h ⊢
+  rw [validNC_iff]
+  rw [valid_iff] at h
   exact ⟨h.1, valid_nc h.2⟩
 
-theorem validNC_setFifty {b : Board} (x : Int) : ValidNC (setFifty b x) ↔ ValidNC b := Iff.rfl
+theorem validNC_setFifty {b : Board} (x : Int) : ValidNC (setFifty b x) ↔ ValidNC b := by
+  unfold ValidNC; rw [setFifty_setFifty]
 
-/-- a valid board with the clock in range is `ValidNC` and conversely. -/
+theorem valid_of_nc {p : Pos} (h : Rules.valid (nc p) = true) (h0 : 0 ≤ p.halfmove) (h100 : p.halfmove ≤ 100) :
+    Rules.valid p = true := by
+  have V := (Playable.validP_iff _).1 h
+  exact (Playable.validP_iff p).2
+    ⟨V.kings, V.bound, V.pawns, V.real, V.safe, V.wk, V.wq, V.bk, V.bq, V.ep, h0, h100, V.fm1⟩
+
+/-- a `ValidNC` board with the clock in range is valid. -/
 theorem valid_of_validNC {b : Board} (h : ValidNC b) (h0 : 0 ≤ b.fifty) (h100 : b.fifty ≤ 100) :
     Board.valid b = true := by
-  unfold ValidNC Board.valid at *
-  rw [Bool.and_eq_true] at h ⊢
-  have V := (Playable.validP_iff _).1 h.2
-  exact ⟨h.1, (Playable.validP_iff b.abs).2
-    ⟨V.kings, V.bound, V.pawns, V.real, V.safe, V.wk, V.wq, V.bk, V.bq, V.ep, h0, h100, V.fm1⟩⟩
+  rw [validNC_iff] at h
+  rw [valid_iff]
+  have hf : b.abs.halfmove = b.fifty := rfl
+  exact ⟨h.1, valid_of_nc h.2 (by rw [hf]; exact h0) (by rw [hf]; exact h100)⟩
 
 /-! ### one move, no clock condition -/
 
@@ -172,23 +190,23 @@ structure StepFacts (K : Keys) (b : Board) (mv : Mv) : Prop where
   /-- C02 modulo the clock -/
   absNC : nc (b.makeMove K (encodeMove mv)).1.abs = nc (Rules.apply b.abs mv)
   /-- C04 -/
-  inv' : Inv K (b.makeMove K (encodeMove mv)).1
+  inv' : Board.Inv K (b.makeMove K (encodeMove mv)).1
   /-- the history grows by the from-scratch hash of the new board -/
   hashes' : (b.makeMove K (encodeMove mv)).1.hashes = calcHash K (b.makeMove K (encodeMove mv)).1 :: b.hashes
 
 /-- **one legal move from a `ValidNC` board satisfying C04's invariant** — whatever the clock. -/
-theorem step (K : Keys) {b : Board} {mv : Mv} (hv : ValidNC b) (hi : Inv K b)
+theorem step (K : Keys) {b : Board} {mv : Mv} (hv : ValidNC b) (hi : Board.Inv K b)
     (hl : legal b.abs mv = true) : StepFacts K b mv := by
   -- everything is done on the clock-reset board `z`, which is in the domain of C01/C02/C04
-  have hlz : legal (setFifty b 0).abs mv = true := hl
+  have hlz : legal (setFifty b 0).abs mv = true := by rw [abs_setFifty0, legal_nc]; exact hl
   obtain ⟨hpz, hdec⟩ := Props.C01.legal_playable K hv mv hlz
   have hgz := EpTarget.playable_gen hpz
   have hvz' : Board.valid ((setFifty b 0).makeMove K (encodeMove mv)).1 = true :=
-    Props.C01.valid_make_of_clock_lt K hv hpz (by decide)
+    Props.C01.valid_make_of_clock_lt K hv hpz (by rw [setFifty_fifty]; decide)
   have hcomm := setFifty_make K b (encodeMove mv) 0 0
-  have hinvz' : Inv K ((setFifty b 0).makeMove K (encodeMove mv)).1 :=
+  have hinvz' : Board.Inv K ((setFifty b 0).makeMove K (encodeMove mv)).1 :=
     Props.C04.inv_make K ((inv_setFifty K 0).2 hi) (AbsMake.genMove_of hv hgz).ok
-  have hinv' : Inv K (b.makeMove K (encodeMove mv)).1 := by
+  have hinv' : Board.Inv K (b.makeMove K (encodeMove mv)).1 := by
     rw [← inv_setFifty K 0, ← hcomm, inv_setFifty K 0]; exact hinvz'
   refine ⟨hdec, ?_, ?_, ?_, hinv', ?_⟩
   · rw [← playable_setFifty K b 0]; exact hpz
